@@ -53,14 +53,14 @@ Definition C09_model_ok (c : C09_case) : bool :=
 Definition C09_oracle_ok (c : C09_case) : bool :=
   match c_op c, c_out c with
   | Rt v e t x, OSer bs dec =>
-    if wf_ty t && is_aggr t && wt t x && (blen bs <=? size_limit v t) then
+    if wf_ty t && sup v t && is_aggr t && wt t x && (blen bs <=? size_limit v t) then
       padding_ok bs &&
       (* the options byte counts exactly the bytes after the last one the reader consumed *)
       (match decode_end t bs with Some p => nth 3 bs 0 =? blen bs - 4 - p | None => true end) &&
       match dec with Ok y => val_eqb x y | _ => false end
     else true
-  | Rt v e t x, OSerFail _ => negb (wf_ty t && is_aggr t && wt t x)
-  | Rt v e t x, OAbort => negb (wf_ty t && is_aggr t && wt t x)
+  | Rt v e t x, OSerFail _ => negb (wf_ty t && sup v t && is_aggr t && wt t x)
+  | Rt v e t x, OAbort => negb (wf_ty t && sup v t && is_aggr t && wt t x)
   | Dec _ _, _ => true
   | _, _ => false
   end.
